@@ -810,7 +810,21 @@ _lys_set_implemented(struct lys_module *mod, const char **features, struct lys_g
     LY_ERR ret = LY_SUCCESS, r;
     struct lys_module *mod_iter;
     const char **imp_f, *all_f[] = {"*", NULL};
-    uint32_t i;
+    uint32_t i, cnt;
+    struct lysp_feature *f = NULL;
+    ly_bool *bits;
+
+    if (features) {
+        /* remember the current feature states, they are restored if the operation fails */
+        for (i = 0, cnt = 0; (f = lysp_feature_next(f, mod->parsed, &i)); ++cnt) {}
+        bits = malloc((cnt + 1) * sizeof *bits);
+        LY_CHECK_ERR_RET(!bits, LOGMEM(mod->ctx), LY_EMEM);
+        for (i = 0, cnt = 0; (f = lysp_feature_next(f, mod->parsed, &i)); ++cnt) {
+            bits[cnt] = (f->flags & LYS_FENABLED) ? 1 : 0;
+        }
+        LY_CHECK_ERR_RET(ly_set_add(&unres->feat_bits, bits, 1, NULL), free(bits), LY_EMEM);
+        LY_CHECK_RET(ly_set_add(&unres->feat_mods, mod, 1, NULL));
+    }
 
     if (mod->implemented) {
         /* mod is already implemented, set the features */
@@ -1105,7 +1119,18 @@ lys_unres_glob_revert(struct ly_ctx *ctx, struct lys_glob_unres *unres)
     struct lysf_ctx fctx = {.ctx = ctx};
     struct ly_set *dep_set;
     struct lys_module *m, *mod_latest;
+    struct lysp_feature *f;
+    ly_bool *bits;
     LY_ERR ret;
+
+    /* restore the feature states, the last change first */
+    for (i = unres->feat_mods.count; i; --i) {
+        m = unres->feat_mods.objs[i - 1];
+        bits = unres->feat_bits.objs[i - 1];
+        for (f = NULL, idx = 0, j = 0; (f = lysp_feature_next(f, m->parsed, &idx)); ++j) {
+            f->flags = bits[j] ? (f->flags | LYS_FENABLED) : (f->flags & ~LYS_FENABLED);
+        }
+    }
 
     for (i = 0; i < unres->implementing.count; ++i) {
         fctx.mod = unres->implementing.objs[i];
@@ -1158,9 +1183,9 @@ lys_unres_glob_revert(struct ly_ctx *ctx, struct lys_glob_unres *unres)
     /* remove the extensions as well */
     lysf_ctx_erase(&fctx);
 
-    if (unres->implementing.count) {
-        /* recompile previous context because some implemented modules are no longer implemented,
-         * we can reuse the current to_compile flags */
+    if (unres->implementing.count || unres->feat_mods.count) {
+        /* recompile previous context because some implemented modules are no longer implemented
+         * or have their previous features again, we can reuse the current to_compile flags */
         prev_lo = ly_temp_log_options(&temp_lo);
         ret = lys_compile_depset_all(ctx, &ctx->unres);
         ly_temp_log_options(prev_lo);
@@ -1181,6 +1206,8 @@ lys_unres_glob_erase(struct lys_glob_unres *unres)
     ly_set_erase(&unres->dep_sets, NULL);
     ly_set_erase(&unres->implementing, NULL);
     ly_set_erase(&unres->creating, NULL);
+    ly_set_erase(&unres->feat_mods, NULL);
+    ly_set_erase(&unres->feat_bits, free);
 
     assert(!unres->ds_unres.whens.count);
     assert(!unres->ds_unres.musts.count);
